@@ -1,0 +1,22 @@
+//go:build verif
+
+package mint
+
+import (
+	"net/http"
+
+	"github.com/elnosh/gonuts/mint/storage"
+)
+
+// Verification hooks (build tag verif): accessors only, no behaviour change.
+
+// VerifHandler returns the HTTP handler (router with middleware) of the mint server so
+// that requests can be served in-process without opening a socket.
+func (ms *MintServer) VerifHandler() http.Handler {
+	return ms.httpServer.Handler
+}
+
+// VerifWrapDB replaces the mint's storage handle by wrap(current handle).
+func (m *Mint) VerifWrapDB(wrap func(storage.MintDB) storage.MintDB) {
+	m.db = wrap(m.db)
+}
